@@ -245,6 +245,7 @@ class C08(common.Prop):
             {'kind': 'fb', 'atom': 'C', 'L': ['$0']},
             {'kind': 'fb', 'atom': '[#A]', 'L': ['>1', '<A1', '!1']},
             {'kind': 'fb', 'atom': 'C', 'L': ['$2', '>x1']},
+            {'kind': 'fb', 'atom': 'C', 'L': ['>4', '$1', '!x4']},
             {'kind': 'rfc', 'name': 'X', 'text': '[#A][$]=[#B]([#C][>])[#D]1[#E][#F]1[!A]'},
             {'kind': 'rfc', 'name': 'PEO', 'text': '[<][#PEO][#PEO][>]'},
             {'kind': 'rfc', 'name': 'X', 'text': '[#A]([#B]'},
@@ -285,10 +286,10 @@ class C08(common.Prop):
     def generate(self, ctx, n):
         rng = ctx.rng
         out = []
-        descs = [k + l + str(o) for k in KINDS for l in LABELS for o in range(4)]
+        descs = [k + l + str(o) for k in KINDS for l in LABELS for o in range(5)]
         n_fb = n // 3
         if ctx.thorough():
-            small = [k + l + str(o) for k in '$>' for l in ('', 'a') for o in range(4)]
+            small = [k + l + str(o) for k in '$>' for l in ('', 'a') for o in range(5)]
             for m in (1, 2, 3):
                 for L in itertools.product(small, repeat=m):
                     out.append({'kind': 'fb', 'atom': 'C', 'L': list(L)})
@@ -300,7 +301,7 @@ class C08(common.Prop):
             if r < 0.35:    # uniform order 1
                 L = [rng.choice(KINDS) + rng.choice(LABELS) + '1' for _ in range(m)]
             elif r < 0.55:  # only the first may be non-single
-                L = [rng.choice(KINDS) + rng.choice(LABELS) + (str(rng.choice([1, 2, 3])) if i == 0 else '1') for i in range(m)]
+                L = [rng.choice(KINDS) + rng.choice(LABELS) + (str(rng.choice([1, 2, 3, 4])) if i == 0 else '1') for i in range(m)]
             else:
                 L = [rng.choice(descs) for _ in range(m)]
             out.append({'kind': 'fb', 'atom': rng.choice(ATOMS), 'L': L})
